@@ -4,9 +4,9 @@ import (
 	"fmt"
 	_ "time/tzdata"
 
+	"github.com/keybase/go-crypto/brainpool"
 	"github.com/wokdav/gopki/generator/db"
 	"github.com/wokdav/gopki/generator/db/filesystem"
-	"github.com/keybase/go-crypto/brainpool"
 )
 
 func main() {
